@@ -293,6 +293,8 @@ func (x *Exec) pinBoolHyps(st *State) {
 				bind[cj] = x.b.True()
 			case cj.Op == "not" && cj.Args[0].Op == "var":
 				bind[cj.Args[0]] = x.b.False()
+			case cj.Op == "=" && cj.Args[0].Op == "var" && isC(cj.Args[1]):
+				bind[cj.Args[0]] = cj.Args[1]
 			default:
 				rest = append(rest, cj)
 			}
